@@ -151,22 +151,41 @@ class Ctx:
     # ------------------------------------------------------------------ hypothesis driver
     def given(self, strategy, fn: Callable, max_examples: int, *, seed_offset: int = 0):
         """Run ``fn(case)`` on ``max_examples`` generated cases (generate phase only, no failure expected)."""
+        import warnings  # noqa: PLC0415
+
         from hypothesis import HealthCheck, Phase, given, settings  # noqa: PLC0415
         from hypothesis import seed as hseed  # noqa: PLC0415
+        from hypothesis.errors import HypothesisWarning  # noqa: PLC0415
+        warnings.simplefilter("ignore", HypothesisWarning)
+
+        from hypothesis.errors import FlakyStrategyDefinition  # noqa: PLC0415
 
         ctx = self
+        done = [0]
+        for attempt in range(6):
+            remaining = max_examples - done[0]
+            if remaining <= 0:
+                break
 
-        @hseed(self.seed * 7919 + seed_offset)
-        @settings(max_examples=max_examples, database=None, deadline=None, derandomize=False,
-                  report_multiple_bugs=False, phases=[Phase.generate],
-                  suppress_health_check=list(HealthCheck))
-        @given(strategy)
-        def run(case):
-            if ctx.out_of_time():
-                return
-            fn(case)
+            @hseed(self.seed * 7919 + seed_offset + attempt * 104729)
+            @settings(max_examples=remaining, database=None, deadline=None, derandomize=False,
+                      report_multiple_bugs=False, phases=[Phase.generate],
+                      suppress_health_check=list(HealthCheck))
+            @given(strategy)
+            def run(case):
+                done[0] += 1
+                if ctx.out_of_time():
+                    return
+                fn(case)
 
-        run()
+            try:
+                run()
+                break
+            except FlakyStrategyDefinition:
+                # Hypothesis noticed that a replayed choice sequence drew differently (seen rarely with the deeply
+                # recursive soups; cause: interpreter stack-depth dependent aborts inside st.recursive).  No oracle
+                # verdict is involved: count it and continue the remaining budget under a derived seed.
+                self.counters["hypothesis_flaky_generation_restarts"] += 1
 
     # ------------------------------------------------------------------ (de)serialisation between processes
     def partial(self) -> dict:
